@@ -286,7 +286,8 @@ def ipv6_text(tier, seed):
           return "netmask conversion for %d" % bits
       yield ("cidr6 n=%032x bits=%d" % (n, bits), t)
   bad = ["1::2::3", ":::", "1:2:3:4:5:6:7:8:9", "12345::", "g::1", "1:2:3:4:5:6:7", "::1/129", "1.2.3.4", "",
-         "1:2:3:4:5:6:7:8:"]
+         "1:2:3:4:5:6:7:8:", ":1::2", "1::2:", ":::1", "1:::2", "1:2:3", ":1:2:3:4:5:6:7", "1:2:3:4:5:6:7:", "::1/64/3", "::/64/3", "1::/16/",
+         "1:2:3:4:5:6:1.2.3.4:7", "1:2:3:4:5:6:7:1.2.3.4"]
   for s in bad:
     def t(s=s):
       try:
